@@ -10,3 +10,6 @@ import DiplomatModel.Props.C16
 #print axioms DiplomatModel.Props.C16.validUtf8_bytes
 #print axioms DiplomatModel.Props.C16.js_str8_length_exact
 #print axioms DiplomatModel.Props.C16.js_str8_is_str
+#print axioms DiplomatModel.Props.C16.js_str16_roundtrip
+#print axioms DiplomatModel.Props.C16.js_str16_size_exact
+#print axioms DiplomatModel.Props.C16.js_str16_bytes
